@@ -23,6 +23,7 @@ EXTRA_THEOREM_FILES = ["Props/C01_grammar.v"]
 EXTRA_THEOREM_FILES += ["Props/C01_src_ctor.v"]      # source tie of IPAddress.__init__ (str branch) (DESIGN 5.1b)
 EXTRA_THEOREM_FILES.append("Props/C01_src.v")     # SRCC: source tie, translated source = model (DESIGN 5.1b)
 EXTRA_THEOREM_FILES += ["Props/C01_code.v", "Props/C01_code_grammar.v"]   # CODB: code-level theorems (the C01 theorems stated about the regenerated definitions)
+EXTRA_THEOREM_FILES.append("Props/C01_src_g.v")     # SRCG: __repr__ of IPAddress / IPNetwork / IPRange, IPRange.__str__, IPAddress.__oct__
 BACKENDS = [None, "fallback"]
 RULE = ("values: boundary values of both families, every zero/non-zero pattern of the 8 hextets with several fillers, "
         "IPv4-compatible/mapped shapes, random dense/sparse values; each printed in every dialect and re-parsed with "
